@@ -190,7 +190,7 @@ pub fn run(rep: &Report) -> i32 {
         if quick && bi >= 4 && bi % 4 != 0 {
             return;
         }
-        let ms = mutate::near_misses(base);
+        let ms = mutate::near_misses_for(name, base, rep.is_quick());
         rep.transition(ms.len() as u64);
         for (mi, (op, m)) in ms.iter().enumerate() {
             if rep.out_of_time() {
